@@ -468,11 +468,27 @@ func c09Cycle(c *Ctx) {
 			if !calleeIs(c, cs, genPkg, "(*Graph).dfsCycleDetection") {
 				continue
 			}
+			// the root is an element of g.nodes itself - not of a list filtered or computed from it: a cycle that no
+			// "source" leads into is found only if every node is tried as a root
 			s := newSym(L, map[string]bool{})
-			for _, t := range s.eval(cs.arg(1)) {
-				if strings.Contains(t, "field:internal/kessoku.Graph.nodes(") {
-					okAll = true
+			s.maxD = 0
+			ts := s.eval(cs.arg(1))
+			okAll = len(ts) > 0
+			for _, t := range ts {
+				if !strings.HasPrefix(t, "index(field:internal/kessoku.Graph.nodes(param:") {
+					okAll = false
 				}
+			}
+			if cs.fn != det {
+				okAll = okAll && false
+			}
+			// and the search from a root is skipped only for a node that an earlier search already coloured
+			for _, iff := range controllingIfs(cs.instr) {
+				t := strings.Join(s.eval(iff.Cond), "|")
+				if strings.HasPrefix(t, "bin<(") || strings.Contains(t, "lookup(") {
+					continue
+				}
+				c.check(false, "C09.4", "detectCycles:root-guard", L.pos(iff.Cond.Pos()), "the search from a node is skipped only when that node was already visited", t)
 			}
 			// the result is turned into an error when non-nil
 			if call := cs.value(); call != nil {
